@@ -241,6 +241,8 @@ class Fn:
                 return
             if op.get('op') == 'const':
                 sl.consts.add((op.get('ty'), op.get('val'), op.get('fn')))
+                if op.get('pretty'):
+                    sl.pretty.add((op.get('ty'), op.get('pretty')))
                 if op.get('fn'):
                     sl.fnrefs.add(op['fn'])
             else:
@@ -306,6 +308,7 @@ class Fn:
 class Slice:
     def __init__(self):
         self.consts = set()
+        self.pretty = set()       # (type, pretty-printed value) of promoted constants the driver could only print
         self.params = set()
         self.fields = set()
         self.places = set()
